@@ -53,6 +53,7 @@ type c04call struct {
 	msg       string
 	pad       string
 	done      bool
+	rich      int // -1 none, else a richFields recipe
 }
 
 type c04task struct {
@@ -109,6 +110,9 @@ func c04derive(base *zap.Logger, variant, t int) *taskLogger {
 func c04do(tl *taskLogger, c *c04call) {
 	msg := c.msg
 	fields := []zap.Field{zap.Int("t", c.task), zap.Int("s", c.seq), zap.String("pad", c.pad)}
+	if c.rich >= 0 {
+		fields = append(fields, richFields(c.rich, c.seq)...)
+	}
 	switch c.front {
 	case feLevel:
 		switch c.lvl {
@@ -230,7 +234,7 @@ func runC04(c *Ctx) {
 		tk := &c04task{variant: g.Draw(6)}
 		n := 1 + g.Draw(maxCalls)
 		for s := 0; s < n; s++ {
-			call := &c04call{task: t, seq: s, lvl: stdLevels[g.Weighted(1, 4, 2, 2)], front: g.Draw(nFrontEnds)}
+			call := &c04call{task: t, seq: s, lvl: stdLevels[g.Weighted(1, 4, 2, 2)], front: g.Draw(nFrontEnds), rich: g.Draw(20) - 10}
 			padLen := 0
 			switch g.Weighted(4, 3, 1, 1) {
 			case 1:
